@@ -51,6 +51,12 @@ def collect_renders(fn, stmts, inherited, out):
                     keys[lit_str(x["args"][0])] = kv
                 if x.get("k") == "mcall" and x["method"] == "render" and x["args"] and lit_str(x["args"][0]):
                     out.append((fn, lit_str(x["args"][0]), dict(keys)))
+                elif x.get("k") in ("mcall", "call") and x.get("args") and x.get("method") != "insert":
+                    # a render routed through a private wrapper (`self.render_or_empty("x.tera", label, &context)`): a call that is handed a
+                    # template name literal together with the context variable
+                    names = [lit_str(a) for a in x["args"] if lit_str(a) and lit_str(a).endswith(".tera")]
+                    if len(names) == 1 and any(expr_text(a).lstrip("&").replace("mut ", "").strip() in ctxvars for a in x["args"]):
+                        out.append((fn, names[0], dict(keys)))
             for x in walk_shallow(e):
                 if x.get("k") == "block" and x is not e:
                     collect_renders(fn, x["stmts"], {}, out)
